@@ -449,9 +449,11 @@ func (w *World) stop() {
 		}
 	}
 	// let free-running jobs of this instance drain, then close
+	idle := false
 	for i := 0; i < 2000; i++ {
 		st := mgr.Status()
 		if st.ImportJobCount == 0 && !st.MergeJobRunning && !st.TaggingJobRunning && !st.ConverterJobRunning {
+			idle = true
 			break
 		}
 		time.Sleep(time.Millisecond)
@@ -463,7 +465,12 @@ func (w *World) stop() {
 	retired.Store(mgr, true)
 	worlds.Delete(mgr)
 	mgr.Close()
-	mgr.VerifCloseIndexes()
+	if idle {
+		// only when nothing runs any more: a job of this instance that is still reading an index would
+		// panic inside the repository's reader (it treats a read error as fatal) and take the whole
+		// checker down.  An instance whose jobs never end keeps its descriptors.
+		mgr.VerifCloseIndexes()
+	}
 }
 
 // Stage makes a scenario capture visible to the service (like an upload does) and returns its name.
